@@ -511,6 +511,24 @@ class Gen:
                     'e': ['raw', '(' + pe(a) + ') ^ '
                           + r.choice(('2', '3', '0', '.5', '(0 - 1)', '2.5', '400', '(0 - 2)')), '#'],
                     'rawexpr': True}
+        x = r.random()
+        if x < 0.2:
+            # PRINT USING with a random format string and 0-3 values
+            fmt = ''.join(r.choice('##..,+-&!_$*^ ab%') for _ in range(r.randint(1, 8)))
+            vals = [r.choice(('1.5', '-2', '1000000', '"xy"', '""', '0', '12345.678', '1d300', '-0.004'))
+                    for _ in range(r.randint(0, 3))]
+            return {'k': 'raw', 'text': 'print using "' + fmt + '"; ' + '; '.join(vals)
+                    + r.choice(('', ';'))}
+        if x < 0.35:
+            # VAL of text that is almost a number
+            t = ''.join(r.choice('0123456789.-+eEdD&hHoO%!# xyz') for _ in range(r.randint(0, 9)))
+            t = r.choice((t, t, '99999%', '&HFFFFFFFFFF', '&O777777777777', '1e', '.', '-', '&H', '1d999', '40000%',
+                          '3000000000&'))
+            return {'k': 'raw', 'text': 'print val("' + t + '")'}
+        if x < 0.4:
+            return {'k': 'raw', 'text': r.choice(('a9& = 7 : b9& = 400000 : print a9& ^ b9&',
+                                                  'a9% = 2 : print a9% ^ 14; a9% ^ 15; a9% ^ 16',
+                                                  'return', 'a9& = 3 : print a9& ^ a9& ^ a9& ^ a9&'))}
         return {'k': 'raw', 'text': r.choice(self.RAW)}
 
     def input_stmt(self, sc):
@@ -1145,10 +1163,14 @@ class Gen:
         if self.p['consts']:
             for _ in range(r.randint(1, 2)):
                 ty = r.choice(list(self.num_types) + (['$'] if self.p['strings'] else []))
-                n = self.fresh('k', ty)
+                # (without a suffix the constant takes the type of its value,
+                # not the type a variable of that name would have)
+                n = self.fresh('k', ty) if r.random() < 0.7 else self.fresh('kk')
                 e = self.lit(ty)
                 if ty != '$' and r.random() < 0.4:
                     e = ['bin', r.choice(('+', '*', '-')), self.lit(ty), self.lit('%')]
+                if ty == '&' and name_type(n) is None and r.random() < 0.5:
+                    e = ['lit', '&', r.choice((16777217, 2147483647, 100000))]
                 out.append({'k': 'const', 'name': n, 'e': e})
                 self.global_consts[n] = ty
         if self.p['shared']:
